@@ -648,3 +648,38 @@ Definition SUBTREE_TT : Z := 16045690981265902605.   (* 0xdeadbeef0a0b0c0d *)
 
 Definition subtree_serialize (buf : list byte) (msgs : list (list byte)) : res (Z * list byte) :=
   x <- bundle buf SUBTREE_TT [] ;; append_all (snd x) (fst x) msgs.
+
+(* ---- reference decoder, written from the OSC 1.0 text (Spec side of C07's
+   "returns what an independent OSC decoder returns"): OSC-strings are read at
+   4-aligned positions and occupy |s|+1 rounded up to a multiple of 4 bytes;
+   the type tag string starts with ','; arguments follow in tag order ------- *)
+Definition const_val_of (t : byte) : argval :=
+  if t =? 84 then VT true else if t =? 70 then VT false else V0.
+
+Definition osc_string (m : list byte) (p : Z) : res (list byte * Z) :=
+  s <- cstr_at m p ;; Ok (s, p + (zlen s + (4 - zlen s mod 4))).
+
+Fixpoint ref_args (m : list byte) (tags : list byte) (p : Z) : res (list (byte * argval)) :=
+  match tags with
+  | [] => Ok []
+  | t :: r =>
+      if is_bracket t then ref_args m r p else
+      match kind_of t with
+      | K0 => rest <- ref_args m r p ;; Ok ((t, const_val_of t) :: rest)
+      | K4 => v <- rd32 m p ;; rest <- ref_args m r (p + 4) ;; Ok ((t, V4 v) :: rest)
+      | K8 => v <- rd64 m p ;; rest <- ref_args m r (p + 8) ;; Ok ((t, V8 v) :: rest)
+      | KS => x <- osc_string m p ;; rest <- ref_args m r (snd x) ;; Ok ((t, VStr p) :: rest)
+      | KB => len <- rd32 m p ;;
+              rest <- ref_args m r (p + 4 + len + (4 - len mod 4) mod 4) ;;
+              Ok ((t, VBlob len (p + 4)) :: rest)
+      end
+  end.
+
+(* address, type tags (without the ','), decoded arguments *)
+Definition ref_decode (m : list byte) : res (list byte * list byte * list (byte * argval)) :=
+  a <- osc_string m 0 ;;
+  tt <- osc_string m (snd a) ;;
+  match fst tt with
+  | c :: tags => if c =? 44 then l <- ref_args m tags (snd tt) ;; Ok (fst a, tags, l) else Oob
+  | [] => Oob
+  end.
